@@ -1,2 +1,5 @@
 -- Property files of work group H (import UF.Props.Cxx lines go here).
 import UF.Driver.Ops.GroupH
+import UF.Props.C10
+import UF.Props.C17
+import UF.Props.C18
